@@ -333,6 +333,17 @@ func vfNewBench(t testing.TB, cfg vfBenchCfg) *vfBench {
 				}
 				u.conn = conn
 				sts = append(sts, u)
+			} else if tc.Real && tc.Proto == "TCP" {
+				// a real TCP listener (accept loop + one reader goroutine per connection), handing messages to this proxy
+				port := tc.Port
+				if port == 0 {
+					port = vfFreeTCPPort(t, pc.Addr)
+				}
+				ts := NewTCPServerTransport(pc.Addr, port, pc.Recv, p, b.slr)
+				if err := ts.Start(p); err != nil {
+					t.Fatalf("VF-INFRA cannot start TCP listener: %v", err)
+				}
+				sts = append(sts, ts)
 			} else {
 				sts = append(sts, &vfST{proto: tc.Proto, addr: pc.Addr, port: tc.Port})
 			}
@@ -423,6 +434,79 @@ func (b *vfBench) reset(t testing.TB) {
 	vfBenchCur.mu.Unlock()
 	vfSetHook(vfBenchHook)
 }
+
+func vfFreeTCPPort(t testing.TB, ip string) int {
+	l, err := net.Listen("tcp", ip+":0")
+	if err != nil {
+		t.Fatalf("VF-INFRA no free tcp port: %v", err)
+	}
+	p := l.Addr().(*net.TCPAddr).Port
+	l.Close()
+	return p
+}
+
+// vfClient is a TCP client connection handled at system-call level (blocking connect, non-blocking reads)
+type vfClient struct {
+	fd      int
+	ip      string
+	port    int
+	pending []byte
+}
+
+func vfDial(t testing.TB, localIP, ip string, port int) *vfClient {
+	fd, err := syscall.Socket(syscall.AF_INET, syscall.SOCK_STREAM|syscall.SOCK_CLOEXEC, 0)
+	if err != nil {
+		t.Fatalf("VF-INFRA socket: %v", err)
+	}
+	if err := syscall.Bind(fd, vfSockaddr(localIP, 0)); err != nil {
+		t.Fatalf("VF-INFRA bind %s: %v", localIP, err)
+	}
+	if err := syscall.Connect(fd, vfSockaddr(ip, port)); err != nil {
+		t.Fatalf("VF-INFRA connect %s:%d: %v", ip, port, err)
+	}
+	syscall.SetNonblock(fd, true)
+	sa, _ := syscall.Getsockname(fd)
+	lip, lport := vfSaStr(sa)
+	return &vfClient{fd: fd, ip: lip, port: lport}
+}
+
+func (c *vfClient) write(b []byte) error {
+	for len(b) > 0 {
+		n, err := syscall.Write(c.fd, b)
+		if err == syscall.EAGAIN {
+			time.Sleep(time.Millisecond)
+			continue
+		}
+		if err != nil {
+			return err
+		}
+		b = b[n:]
+	}
+	return nil
+}
+
+// poll returns the complete messages that have arrived, and whether the peer closed the connection
+func (c *vfClient) poll() (msgs [][]byte, closed bool) {
+	buf := make([]byte, 1<<16)
+	for {
+		n, _, err := syscall.Recvfrom(c.fd, buf, syscall.MSG_DONTWAIT)
+		if err == nil && n == 0 {
+			closed = true
+			break
+		}
+		if err != nil || n < 0 {
+			if err != syscall.EAGAIN && err != syscall.EWOULDBLOCK && err != nil {
+				closed = true
+			}
+			break
+		}
+		c.pending = append(c.pending, buf[:n]...)
+	}
+	msgs, c.pending = vfFrame(c.pending)
+	return
+}
+
+func (c *vfClient) close() { syscall.Close(c.fd) }
 
 // real listener sockets are shared by all benches of a process (one per address:port, never closed)
 var vfLSocks = map[string]*net.UDPConn{}
